@@ -462,7 +462,11 @@ func c15(c *Ctx) {
 		okProd := false
 		for _, e := range effects {
 			if call, ok := e.N.(*ast.CallExpr); ok && len(call.Args) == 1 {
-				if cl, ok := unparen(call.Args[0]).(*ast.CompositeLit); ok && typeIs(info.Types[cl].Type, sdkMetric, "produceHolder") {
+				arg0 := unparen(call.Args[0])
+				if u, isU := arg0.(*ast.UnaryExpr); isU && u.Op == token.AND {
+					arg0 = unparen(u.X) // the holder kept behind an atomic.Pointer instead of an atomic.Value
+				}
+				if cl, ok := arg0.(*ast.CompositeLit); ok && typeIs(info.Types[cl].Type, sdkMetric, "produceHolder") {
 					for _, el := range cl.Elts {
 						if kv, ok := el.(*ast.KeyValueExpr); ok {
 							if sel, ok := unparen(kv.Value).(*ast.SelectorExpr); ok && sel.Sel.Name == "produce" {
